@@ -145,10 +145,15 @@ class CartesianProduct(Constructor[CombinatorialClassType, CombinatorialObjectTy
     ) -> sympy.Eq:
         res = 1
         for extra_parameters, rhs_func in zip(self.extra_parameters, rhs_funcs):
-            res *= rhs_func.subs(
-                {child: parent for parent, child in extra_parameters.items()},
-                simultaneous=True,
-            )
+            # several parameters of the parent may be mapped to the same parameter
+            # of a child: it then stands for their product
+            subs: Dict[str, sympy.Expr] = {}
+            for parent, child in extra_parameters.items():
+                if child in subs:
+                    subs[child] *= sympy.var(parent)
+                else:
+                    subs[child] = sympy.var(parent)
+            res *= rhs_func.subs(subs, simultaneous=True)
         return sympy.Eq(lhs_func, res)
 
     def reliance_profile(self, n: int, **parameters: int) -> RelianceProfile:
